@@ -131,7 +131,52 @@ impl Encode {
             }
         }
         let rowh = hash64(row.name);
-        let other_max = lists.iter().enumerate().filter(|(i, _)| !reg_pos.contains(i)).map(|(_, l)| l.len()).max().unwrap_or(1);
+        // small domains: full cartesian product of register tuples x all other operand lists
+        let other_pos: Vec<usize> = (0..lists.len()).filter(|i| !reg_pos.contains(i)).collect();
+        let full: usize = other_pos.iter().map(|&i| lists[i].len()).product::<usize>().saturating_mul(cross.len());
+        if !other_pos.is_empty() && full <= 4096 {
+            let mut out = Vec::with_capacity(full);
+            let mut t = 0u64;
+            for regs in &cross {
+                let mut idx = vec![0usize; other_pos.len()];
+                loop {
+                    let mut ops = Vec::with_capacity(lists.len());
+                    for k in 0..lists.len() {
+                        if let Some(p) = reg_pos.iter().position(|&rp| rp == k) {
+                            ops.push(if row.kinds[k] == K::R { Op::R(regs[p]) } else { Op::X(regs[p]) });
+                        } else {
+                            let j = other_pos.iter().position(|&op| op == k).unwrap();
+                            ops.push(lists[k][idx[j]].clone());
+                        }
+                    }
+                    t += 1;
+                    let avx = match row.av {
+                        Av::Sse => false,
+                        Av::Avx => true,
+                        Av::Any => splitmix(rowh ^ t.wrapping_mul(77)) & 1 == 1,
+                    };
+                    out.push(Inst { m: row.name, avx, ops });
+                    // odometer
+                    let mut d = 0;
+                    loop {
+                        if d == idx.len() {
+                            break;
+                        }
+                        idx[d] += 1;
+                        if idx[d] < lists[other_pos[d]].len() {
+                            break;
+                        }
+                        idx[d] = 0;
+                        d += 1;
+                    }
+                    if d == idx.len() {
+                        break;
+                    }
+                }
+            }
+            return out;
+        }
+        let other_max =lists.iter().enumerate().filter(|(i, _)| !reg_pos.contains(i)).map(|(_, l)| l.len()).max().unwrap_or(1);
         let has_big_other = other_max > 64;
         let n = cross.len().max(other_max) * if has_big_other { passes } else { 1 };
         let mut out = Vec::with_capacity(n);
